@@ -398,6 +398,20 @@ func isoClasses() []isoClass {
 		{"body-only", doc(""), strings.Replace(doc(""), "Hello", "Goodbye <b>x</b>", 1)},
 		{"validation", strings.Replace(doc(""), `<mj-divider/>`, `<mj-divider bogus="1"/>`, 1), strings.Replace(doc(""), `<mj-divider/>`, `<mj-divider other-bogus="2" border-width="3px"/>`, 1)},
 		{"body-width", strings.Replace(doc(""), "<mj-body>", `<mj-body width="480px">`, 1), strings.Replace(doc(""), "<mj-body>", `<mj-body width="700px">`, 1)},
+		// spelling twins: the same document with values written in another letter case or an equivalent spelling — anything a
+		// compilation remembers under a key that folds the two together shows when the other spelling was compiled first
+		{"colour-case-short", strings.NewReplacer(`<mj-text css-class="ka">`, `<mj-text css-class="ka" color="#FA0" container-background-color="#0Bc">`, `<mj-button mj-class="m1"`, `<mj-button mj-class="m1" background-color="#C0D" color="#FFF"`).Replace(doc("")),
+			strings.NewReplacer(`<mj-text css-class="ka">`, `<mj-text css-class="ka" color="#fa0" container-background-color="#0bC">`, `<mj-button mj-class="m1"`, `<mj-button mj-class="m1" background-color="#c0d" color="#fff"`).Replace(doc(""))},
+		{"colour-case-long", strings.NewReplacer(`<mj-text css-class="ka">`, `<mj-text css-class="ka" color="#FFAA00">`, `<mj-divider/>`, `<mj-divider border-color="#ABCDEF"/>`).Replace(doc("")),
+			strings.NewReplacer(`<mj-text css-class="ka">`, `<mj-text css-class="ka" color="#ffaa00">`, `<mj-divider/>`, `<mj-divider border-color="#abcdef"/>`).Replace(doc(""))},
+		{"colour-case-head", doc(`<mj-head><mj-attributes><mj-all color="#AbC"/><mj-class name="m1" background-color="#DeF"/></mj-attributes></mj-head>`),
+			doc(`<mj-head><mj-attributes><mj-all color="#aBc"/><mj-class name="m1" background-color="#dEf"/></mj-attributes></mj-head>`)},
+		{"value-case", strings.NewReplacer(`<mj-text css-class="ka">`, `<mj-text css-class="ka" font-family="ROBOTO, Arial" align="RIGHT" padding="10PX 5PX">`).Replace(doc("")),
+			strings.NewReplacer(`<mj-text css-class="ka">`, `<mj-text css-class="ka" font-family="Roboto, arial" align="right" padding="10px 5px">`).Replace(doc(""))},
+		{"value-spacing", strings.NewReplacer(`<mj-text css-class="ka">`, `<mj-text css-class="ka" padding="10px  20px" font-family="Lato,Ubuntu">`, `<mj-divider/>`, `<mj-divider border-width="2.0px" width="50.0%"/>`).Replace(doc("")),
+			strings.NewReplacer(`<mj-text css-class="ka">`, `<mj-text css-class="ka" padding="10px 20px" font-family="Lato, Ubuntu">`, `<mj-divider/>`, `<mj-divider border-width="2px" width="50%"/>`).Replace(doc(""))},
+		{"class-case", strings.NewReplacer(`css-class="ka"`, `css-class="Ka"`, `class="kb"`, `class="KB"`).Replace(doc(`<mj-head><mj-style inline="inline">.ka { color: #123456; } .kb { color: #ff0000; }</mj-style></mj-head>`)),
+			doc(`<mj-head><mj-style inline="inline">.ka { color: #123456; } .kb { color: #ff0000; }</mj-style></mj-head>`)},
 		{"group-columns", `<mjml><mj-body><mj-section><mj-group><mj-column><mj-text>a</mj-text></mj-column><mj-column><mj-text>b</mj-text></mj-column></mj-group></mj-section></mj-body></mjml>`,
 			`<mjml><mj-body><mj-section><mj-column width="33%"><mj-text>a</mj-text></mj-column><mj-column width="67%"><mj-image src="x.png"/></mj-column></mj-section><mj-hero><mj-text>h</mj-text></mj-hero></mj-body></mjml>`},
 	}
